@@ -12,6 +12,7 @@ import random
 import re
 import shutil
 import subprocess
+import time
 
 import core
 import runner
@@ -262,7 +263,7 @@ def run_scenario(shim, sbase, name, setup, target, mode, stats, rng, model_ok, t
         prev = Snap(sb)
         for st in setup:
             r = StepRec()
-            r.step, r.before, r.time, r.off = st, prev, 0, 0
+            r.step, r.before, r.time, r.off = st, prev, int(time.time()), 0
             if st.kind == "edit":
                 getattr(sb, st.op)(*([st.path] + ([st.data] if st.op == "write" else [])))
                 r.res = None
@@ -296,7 +297,7 @@ def run_scenario(shim, sbase, name, setup, target, mode, stats, rng, model_ok, t
         # ---- model trace agreement
         if model_ok:
             r = StepRec()
-            r.step, r.before, r.after, r.res, r.time, r.off = target, before, after, ref, 0, 0
+            r.step, r.before, r.after, r.res, r.time, r.off = target, before, after, ref, int(time.time()), 0
             for k in [k for k in after.objects if k not in before.objects]:
                 p = after.objects[k]
                 if p and p.startswith(b"commit "):
@@ -345,7 +346,13 @@ def run_scenario(shim, sbase, name, setup, target, mode, stats, rng, model_ok, t
             if mode == "crash":
                 if res.code != 137:
                     continue
-                probs = usable(shim, sb, before, after)
+                if name == "init" and not Snap(sb).inited:
+                    # nothing was installed: the state before init.  It must still be possible to initialise.
+                    again = sb.run(target.argv)
+                    probs = [] if again.cls == "ok" else ["init interrupted, and a second init fails: %r" % again.err[:120]]
+                    probs += usable(shim, sb, before, after) if again.cls == "ok" else []
+                else:
+                    probs = usable(shim, sb, before, after)
                 if name == "init" and probs:
                     extra["site"] = "init"
                 elif target.name == "branch-rename" and probs and any("does not exist while other" in p for p in probs):
